@@ -13,6 +13,7 @@ import (
 
 	"github.com/go-logr/logr"
 	"github.com/klauspost/compress/s2"
+	"github.com/pckhoi/meow"
 	"github.com/wrgl/wrgl/pkg/encoding/packfile"
 	"github.com/wrgl/wrgl/pkg/ingest"
 	"github.com/wrgl/wrgl/pkg/objects"
@@ -85,14 +86,21 @@ func (r *ObjectReceiver) saveTable(b []byte) (sum []byte, err error) {
 	if err != nil {
 		return
 	}
+	// index and profile first, store the table object last: a table whose blocks
+	// are missing or whose rebuilt block indices differ from the recorded sums is
+	// rejected without being left in the store
+	arr := meow.Checksum(0, b)
+	if err = ingest.IndexTable(r.db, arr[:], tbl, r.logger.V(1)); err != nil {
+		return nil, err
+	}
+	if err = ingest.ProfileTable(r.db, arr[:], tbl); err != nil {
+		if !objects.TableExist(r.db, arr[:]) {
+			objects.DeleteTableIndex(r.db, arr[:])
+		}
+		return nil, err
+	}
 	sum, err = objects.SaveTable(r.db, b)
 	if err != nil {
-		return
-	}
-	if err = ingest.IndexTable(r.db, sum, tbl, r.logger.V(1)); err != nil {
-		return
-	}
-	if err = ingest.ProfileTable(r.db, sum, tbl); err != nil {
 		return
 	}
 	if r.saveObjHook != nil {
